@@ -24,6 +24,10 @@ impl Addr {
 }
 #[verifier::external_body] pub struct CanonicalAddr { _b: u8 }
 impl Clone for CanonicalAddr { #[verifier::external_body] fn clone(&self) -> (r: Self) ensures r == *self { unimplemented!() } }
+impl PartialEqSpecImpl for CanonicalAddr { open spec fn obeys_eq_spec() -> bool { true } open spec fn eq_spec(&self, o: &CanonicalAddr) -> bool { *self == *o } }
+impl PartialEq for CanonicalAddr { #[verifier::external_body] fn eq(&self, o: &CanonicalAddr) -> (r: bool) ensures r == (*self == *o) { unimplemented!() } }
+/// canonical (binary) form of a human-readable address (uninterpreted)
+pub uninterp spec fn canonical(s: Seq<char>) -> CanonicalAddr;
 pub trait StrLike { spec fn str_view(&self) -> Seq<char>; }
 impl StrLike for String { open spec fn str_view(&self) -> Seq<char> { self@ } }
 impl StrLike for &String { open spec fn str_view(&self) -> Seq<char> { (**self)@ } }
@@ -77,6 +81,8 @@ impl Api {
     /// Ok only for the identical (already normalised) string
     #[verifier::external_body]
     pub fn addr_validate(&self, s: &str) -> (r: Result<Addr, StdError>) ensures r is Ok ==> r->Ok_0.s@ == s@ { unimplemented!() }
+    #[verifier::external_body]
+    pub fn addr_canonicalize(&self, s: &str) -> (r: Result<CanonicalAddr, StdError>) ensures r is Ok ==> r->Ok_0 == canonical(s@) { unimplemented!() }
     #[verifier::external_body]
     pub fn addr_humanize(&self, c: &CanonicalAddr) -> (r: Result<Addr, StdError>) ensures r is Ok ==> r->Ok_0.s@ == humanize(*c) { unimplemented!() }
 }
